@@ -5,11 +5,15 @@
 //!    (ii) ONE display:none node is replaced by a bare `display:none` leaf (Style::DEFAULT + display None, no children, no
 //!         measure data), the tree is rebuilt and laid out from scratch: every node outside the replaced subtree must have
 //!         bit-identical unrounded and rounded layouts, `order` included.
+//!    (iii) the only non-fresh step: the tree is laid out with that node still VISIBLE, the node is then given its display:none
+//!         style through set_style, and the tree is laid out again: the zero clause (i) must hold again (a subtree that had
+//!         real layouts is zeroed).  Plus trace validation: every query that reaches a display:none child is the canonical
+//!         perform_child_layout(NONE, NONE, MAX_CONTENT).
 //! `vh c06 oracle <seed> <start> <n>`: random tree with >= 1 box-generating position:absolute node; ONE of them is neutralised
 //!    to a bare `position:absolute` leaf (Style::DEFAULT + position Absolute), rebuilt, laid out from scratch: every node
 //!    outside its subtree must be bit-identical except `content_size` of its ancestors and `order` of its siblings.
 //!    Mismatches whose target is in the known class (known_findings.json C06/grid-estimate-absolute) print `KNOWN`.
-//! lines: `FAIL <idx> class=<..> <msg>` | `KNOWN <idx> class=gridabs|hiddenroot <msg>` | `PANIC <idx> <which>` | `STAT k=v ...` | `DONE <n> <compared nodes> <zero-checked nodes> <both-panic>`
+//! lines: `FAIL <idx> class=<..> <msg>` | `KNOWN <idx> class=gridabs|hiddenroot <msg>` | `PANIC <idx> <which>` | `STAT k=v ...` | `DONE <n> <compared nodes> <zero-checked nodes> <both-panic> <hidden-child queries validated>`
 //! `vh c05|c06 one <seed> <idx>`: verbose replay of one case.
 //! `vh c05 cases <seed> <n> [start] [skipped=1|2]`: K family in the `vh c08 cases` protocol (same C/R lines, same model runner
 //!    Model/PlacementRun.v) but with half of the children display:none (1, C05) or position:absolute (2, C06), most with definite lines.
@@ -118,6 +122,68 @@ pub fn layout_all(spec: &NodeSpec, a: Size<AvailableSpace>) -> Option<(Lays, Exp
         (lays, ex)
     })
     .ok()
+}
+
+/// Lay the tree out with node `target` VISIBLE (display `vis`), then give it its real (display:none) style through
+/// set_style and lay out again: layouts after the second pass; None on panic.
+pub fn layout_after_hiding(spec: &NodeSpec, target: usize, vis: Display, a: Size<AvailableSpace>) -> Option<Lays> {
+    let spec = spec.clone();
+    std::panic::catch_unwind(move || {
+        let hidden_style = node_at(&spec, target).style.clone();
+        let mut shown = spec.clone();
+        node_at_mut(&mut shown, target).style.display = vis;
+        let mut t: TaffyTree<Ctx> = TaffyTree::new();
+        let mut ids = vec![];
+        let root = build(&mut t, &shown, &mut ids);
+        compute(&mut t, root, a);
+        t.set_style(ids[target], hidden_style).unwrap();
+        compute(&mut t, root, a);
+        ids.iter().map(|n| (layout_bits(t.unrounded_layout(*n)), layout_bits(t.layout(*n).unwrap()))).collect()
+    })
+    .ok()
+}
+
+/// Trace validation of the part of HiddenBlind that is visible in a trace: every query that reaches a display:none node
+/// through compute_cached_layout (i.e. issued by its parent's algorithm) is the canonical one
+/// perform_child_layout(child, NONE, NONE, MAX_CONTENT, InherentSize, FALSE): it carries no information about anything.
+/// Returns (hidden-child queries seen, descriptions of non-canonical ones).
+#[cfg(taffy_verif)]
+pub fn hidden_queries(spec: &NodeSpec, a: Size<AvailableSpace>) -> (u64, Vec<String>) {
+    use taffy::verif_hooks::Event;
+    let spec = spec.clone();
+    std::panic::catch_unwind(move || {
+        let mut t: TaffyTree<Ctx> = TaffyTree::new();
+        let mut ids = vec![];
+        let root = build(&mut t, &spec, &mut ids);
+        taffy::verif_hooks::start_trace();
+        compute(&mut t, root, a);
+        let trace = taffy::verif_hooks::take_trace();
+        let st = styles(&spec);
+        let (mut seen, mut bad) = (0u64, vec![]);
+        for ev in &trace {
+            if let Event::Query { node, input, .. } = ev {
+                let k = match ids.iter().position(|x| x == node) {
+                    Some(k) => k,
+                    None => continue,
+                };
+                if k == 0 || st[k].display != Display::None {
+                    continue;
+                }
+                seen += 1;
+                let canonical = input.run_mode == taffy::RunMode::PerformLayout
+                    && input.sizing_mode == taffy::SizingMode::InherentSize
+                    && input.known_dimensions == Size::NONE
+                    && input.parent_size == Size::NONE
+                    && input.available_space == Size::MAX_CONTENT
+                    && input.vertical_margins_are_collapsible == Line::FALSE;
+                if !canonical {
+                    bad.push(format!("node#{k} (display:none) was queried with {:?}", input));
+                }
+            }
+        }
+        (seen, bad)
+    })
+    .unwrap_or((0, vec![]))
 }
 
 fn diff_fields(a: &(Vec<u32>, Vec<u32>), b: &(Vec<u32>, Vec<u32>), ignore: &dyn Fn(usize) -> bool) -> Vec<String> {
@@ -358,6 +424,7 @@ pub struct Verdict {
     pub nested: bool,
     pub target_has_children: bool,
     pub target_known_class: bool,
+    pub hidden_queries: u64,
 }
 
 fn new_verdict() -> Verdict {
@@ -371,6 +438,7 @@ fn new_verdict() -> Verdict {
         nested: false,
         target_has_children: false,
         target_known_class: false,
+        hidden_queries: 0,
     }
 }
 
@@ -467,6 +535,23 @@ pub fn run05(c: &Case) -> Verdict {
                 ),
             ));
             break;
+        }
+    }
+    // (iii) the same tree laid out while the target is still visible, then hidden through set_style and laid out again:
+    //       the zero clause must hold as well (what was laid out before is zeroed by compute_hidden_layout's recursion)
+    if v.fails.is_empty() {
+        let vis = [Display::Flex, Display::Grid, Display::Block][target % 3];
+        match layout_after_hiding(&c.spec, target, vis, c.avail) {
+            Some(lh) => check_zero(&c.spec, &lh, &mut v, "laid out with the target visible, target then set to display:none, laid out again"),
+            None => {} // a panic while the target is visible is not about display:none
+        }
+    }
+    #[cfg(taffy_verif)]
+    if v.fails.is_empty() {
+        let (seen, bad) = hidden_queries(&c.spec, c.avail);
+        v.hidden_queries = seen;
+        if let Some(b) = bad.first() {
+            v.fails.push(("hyp".to_string(), format!("HiddenBlind (trace): {b}")));
         }
     }
     v
@@ -717,7 +802,7 @@ fn oracle(which: u32, args: &[String]) {
     let seed: u64 = args[1].parse().unwrap();
     let start: u64 = args[2].parse().unwrap();
     let n: u64 = args[3].parse().unwrap();
-    let (mut compared, mut zero, mut bp) = (0u64, 0u64, 0u64);
+    let (mut compared, mut zero, mut bp, mut hq) = (0u64, 0u64, 0u64, 0u64);
     let mut stat: std::collections::BTreeMap<String, u64> = Default::default();
     for idx in start..start + n {
         let r = std::panic::catch_unwind(|| {
@@ -731,6 +816,7 @@ fn oracle(which: u32, args: &[String]) {
                 compared += v.compared;
                 zero += v.zero_checked;
                 bp += v.both_panic as u64;
+                hq += v.hidden_queries;
                 *stat.entry(format!("parent_{}", v.parent_display)).or_default() += 1;
                 *stat.entry(format!("nested_{}", v.nested as u8)).or_default() += 1;
                 *stat.entry(format!("target_has_children_{}", v.target_has_children as u8)).or_default() += 1;
@@ -749,7 +835,7 @@ fn oracle(which: u32, args: &[String]) {
         }
     }
     println!("STAT {}", stat.iter().map(|(k, v)| format!("{k}={v}")).collect::<Vec<_>>().join(" "));
-    println!("DONE {n} {compared} {zero} {bp}");
+    println!("DONE {n} {compared} {zero} {bp} {hq}");
 }
 
 fn one(which: u32, args: &[String]) {
